@@ -577,7 +577,8 @@ def check_params_and_timers(obs):
                 t_term = stt['ending'][1]
                 heard = [evt[1] for evt in obs.wld.hist if evt[3] == 'tcp-recv' and evt[5] == pipe_in and evt[1] > t_term]
                 eof = [evt[1] for evt in obs.wld.hist if evt[3] == 'tcp-recv-eof' and evt[5] == pipe_in]
-                sent_after = [msg['stamp'][1] for msg in obs.wire[side] if msg['stamp'][1] > t_term + 1000]
+                # its own keepalives are not something it hears: only other output (segments of a transfer still being sent) excuses it
+                sent_after = [msg['stamp'][1] for msg in obs.wire[side] if msg['stamp'][1] > t_term + 1000 and msg['kind'] != 'KEEPALIVE']
                 if not heard and not eof and not sent_after and side not in obs.tcp_close:
                     if end_time - t_term > idle * 10**6 + tol:
                         out.append(('idle', 'terminating-never-closes', '%s began terminating at %.3f s, heard nothing, and had not closed %.3f s later (idle time %d s)' % (
